@@ -75,6 +75,17 @@ pub fn lib_source(spec: &Value) -> String {
         exports.push(format!("via-{}-{}", s, j));
         body.push(format!("(define (via-{}-{}) (next-{}!))", s, j, j));
     }
+    // export renames whose external name is also bound inside the library, and a swap
+    if spec["collide"].as_bool().unwrap_or(false) {
+        body.push(format!("(define (aux-{} x) (+ x 5))", s));
+        body.push(format!("(define (use-aux-{} x) (aux-{} x))", s, s));
+        body.push(format!("(define (hi-{}) 'internal-high)", s));
+        body.push(format!("(define (lo-{}) 'internal-low)", s));
+        exports.push(format!("use-aux-{}", s));
+        exports.push(format!("(rename {} aux-{})", peek_internal, s));
+        exports.push(format!("(rename hi-{} lo-{})", s, s));
+        exports.push(format!("(rename lo-{} hi-{})", s, s));
+    }
     // an exported constant, and (optionally) a re-export of a dependency's procedure
     exports.push(format!("(rename k const-{})", s));
     body.push(format!("(define k {})", 700 + spec["k"].as_i64().unwrap_or(1)));
@@ -362,6 +373,7 @@ fn gen_lib(rng: &mut Rng, short: &str, imports: Vec<String>, health: &str, allow
         "k": rng.range(1, 9),
         "renames": rng.chance(1, 2),
         "reexport": rng.chance(1, 2),
+        "collide": rng.chance(1, 2),
         "fault": fault,
         "fault_kind": fault_kind,
         "cut": rng.below(10_000),
@@ -391,6 +403,12 @@ fn external_names(spec: &Value) -> Vec<(String, String)> {
         }
     }
     v.push((format!("const-{}", s), "const".to_string()));
+    if spec["collide"].as_bool().unwrap_or(false) {
+        v.push((format!("use-aux-{}", s), "use-helper".to_string()));
+        v.push((format!("aux-{}", s), "look".to_string()));
+        v.push((format!("lo-{}", s), "swapped".to_string()));
+        v.push((format!("hi-{}", s), "swapped".to_string()));
+    }
     if let Some(j) = reexport_target(spec) {
         v.push((format!("bump-{}-from-{}", j, s), format!("via:{}", j)));
     }
